@@ -3,6 +3,7 @@
 #define FILENAME(line) FILENAME_FOR_EXCEPTIONS("src/libawkward/forth/ForthMachine.cpp", line)
 
 #include <sstream>
+#include <limits>
 #include <stdexcept>
 #include <chrono>
 #include <type_traits>
@@ -2715,6 +2716,11 @@ namespace awkward {
               return;
             }
             num_items = stack_pop();
+            if (num_items > (std::numeric_limits<int64_t>::max() >> 3)) {
+              // more items than any input holds; num_items * itemsize would overflow
+              current_error_ = util::ForthError::read_beyond;
+              return;
+            }
           }
 
           I format = ~bytecode & READ_MASK;
